@@ -75,10 +75,17 @@ class IgnoreDirectiveParser:
         try:
             check_path = str(file_path.relative_to(self.project_root))
         except ValueError:
-            check_path = path_str
+            check_path = self._path_in_project(file_path, path_str)
         result = any(matches_pattern(check_path, p) for p in self.repo_patterns)
         self._ignore_cache[path_str] = result
         return result
+
+    def _path_in_project(self, file_path: Path, fallback: str) -> str:
+        """Path inside the project for other spellings of it (relative to cwd, through `..`)."""
+        try:
+            return str(file_path.resolve().relative_to(self.project_root.resolve()))
+        except (ValueError, OSError):
+            return fallback
 
     def has_file_ignore(self, file_path: Path, rule_id: str | None = None) -> bool:
         """Check for file-level ignore directive in first 10 lines."""
